@@ -36,7 +36,13 @@ type Case struct {
 	CLI      bool        `json:"cli,omitempty"`       // also run `desync verify-index -n N` (needs $VERIF_DESYNC_BIN)
 	SHA256   bool        `json:"sha256,omitempty"`    // index made with, and verification configured for, the SHA256 digest
 	FileKind string      `json:"file_kind,omitempty"` // "" plain | sparse (zero blocks left as holes) | symlink (the path given is a link to the file) | sparse+symlink
-	Cancel   int         `json:"cancel,omitempty"`    // 0: never; -1: context cancelled before the call; k>0: cancelled at the k-th hook hit (feed/batch sites)
+	// Empty: zero-size entries inserted into the index table behind the chunk numbers given (modulo; never in front of the
+	// first chunk, whose offset 0 would be the table's tail marker). Their ID is the digest of the empty string, which is
+	// what their (empty) range hashes to - unless EmptyWrong, which makes the first of them carry another ID: the file
+	// then does NOT match the index although every byte of it is right
+	Empty      []int `json:"empty,omitempty"`
+	EmptyWrong bool  `json:"empty_wrong,omitempty"`
+	Cancel     int   `json:"cancel,omitempty"` // 0: never; -1: context cancelled before the call; k>0: cancelled at the k-th hook hit (feed/batch sites)
 }
 
 func batchOf(chunks, n int) int { return chunks / (n * 10) }
@@ -109,6 +115,14 @@ func genCase(t *rapid.T) Case {
 		c.Pieces = []gen.Piece{{Kind: rapid.SampledFrom([]string{"rand", "rand", "text", "zero"}).Draw(t, "bigkind"), Len: total, Seed: rapid.Uint64().Draw(t, "bigseed")}}
 		if c.Mod == "flipnull" {
 			c.Mod = "flip"
+		}
+	}
+	if rapid.IntRange(0, 11).Draw(t, "emptyentries") == 0 {
+		for i, k := 0, rapid.IntRange(1, 3).Draw(t, "nempty"); i < k; i++ {
+			c.Empty = append(c.Empty, rapid.IntRange(0, 1<<16).Draw(t, "emptyat"))
+		}
+		if c.EmptyWrong = rapid.Bool().Draw(t, "emptywrong"); c.EmptyWrong {
+			c.Mod = "none"
 		}
 	}
 	if rapid.IntRange(0, 3).Draw(t, "cancel?") == 0 {
@@ -287,6 +301,34 @@ func run(c Case) (o hx.Outcome) {
 		copy(file[a.Start:a.Start+l], blob[b.Start:b.Start+l])
 	}
 	same := bytes.Equal(file, blob)
+	if len(c.Empty) > 0 && len(idx.Chunks) > 0 {
+		emptyID := desync.ChunkID(ref.ID(nil, c.SHA256))
+		for k, p := range c.Empty {
+			if p < 0 {
+				p = -p
+			}
+			at := 1 + p%len(idx.Chunks)
+			start := uint64(len(blob))
+			if at < len(idx.Chunks) {
+				start = idx.Chunks[at].Start
+			}
+			e := desync.IndexChunk{ID: emptyID, Start: start, Size: 0}
+			if c.EmptyWrong && k == 0 {
+				e.ID[c.B%32] ^= 1 << uint(c.Bit)
+			}
+			idx.Chunks = append(idx.Chunks[:at], append([]desync.IndexChunk{e}, idx.Chunks[at:]...)...)
+		}
+		o.Class("index:zero-size-entry")
+		if c.EmptyWrong {
+			o.Class("index:zero-size-entry:wrong-id")
+			if same {
+				mod = "empty-entry-wrong-id"
+			}
+			same = false
+		} else if same {
+			o.Class("index:zero-size-entry:right-id:file-matches")
+		}
+	}
 
 	dir := hx.Scratch("c17")
 	defer os.RemoveAll(dir)
@@ -407,10 +449,10 @@ func run(c Case) (o hx.Outcome) {
 var spec = &hx.Spec[Case]{
 	ID:    "C17",
 	Level: "exploration",
-	Rule: "cases = (blob, index by reference chunker or arbitrary 1..8-byte tiling, n in 1..64, one modification: none/flip one bit/flip a bit inside a null chunk/truncate/extend/swap equal-size chunks/overwrite chunk; file stored plain or sparse (holes) and given by its path or through a symlink; digest SHA512-256 or SHA256; context never cancelled, cancelled before the call or at the k-th feed/batch hook hit); " +
+	Rule: "cases = (blob, index by reference chunker or arbitrary 1..8-byte tiling, n in 1..64, one modification: none/flip one bit/flip a bit inside a null chunk/truncate/extend/swap equal-size chunks/overwrite chunk, or (1 case in 12) 1..3 zero-size entries in the index table carrying the digest of the empty string or, for the first of them, another ID; file stored plain or sparse (holes) and given by its path or through a symlink; digest SHA512-256 or SHA256; context never cancelled, cancelled before the call or at the k-th feed/batch hook hit); " +
 		"non-trivial = modified file whose damaged chunk is first/last of a verification batch (or last chunk), or an unmodified file with chunks/(10n) >= 1; distinct by (length, chunks, n, mod, chunk, position)",
 	Assumptions: []string{"oracle: VerifyIndex==nil iff file bytes equal the blob (direct comparison)", "chunk IDs computed with crypto/sha512 directly", "files are regular files on the scratch filesystem"},
-	Required:    []string{"chunk>256KiB", "mod:none", "mod:flip", "mod:trunc", "mod:extend", "mod:swap", "mod:overwrite", "batch>=1", "damage-at-batch-boundary", "file==blob", "file!=blob", "digest:sha256", "file:sparse:has-holes", "file:via-symlink", "damage-in-null-chunk:beyond-first-block", "cancel:before-call", "cancel:mid-run", "cancel:interrupted", "cancel:mismatch-not-accepted"},
+	Required:    []string{"index:zero-size-entry:wrong-id", "index:zero-size-entry:right-id:file-matches", "chunk>256KiB", "mod:none", "mod:flip", "mod:trunc", "mod:extend", "mod:swap", "mod:overwrite", "batch>=1", "damage-at-batch-boundary", "file==blob", "file!=blob", "digest:sha256", "file:sparse:has-holes", "file:via-symlink", "damage-in-null-chunk:beyond-first-block", "cancel:before-call", "cancel:mid-run", "cancel:interrupted", "cancel:mismatch-not-accepted"},
 	Gen:         genCase,
 	Run:         run,
 	Watchdog:    hx.Pick(30*time.Second, 120*time.Second), // "accepts iff" includes returning at all
